@@ -141,6 +141,7 @@ def run(targets=None, samples=12, seed=0, verbose=False):
     tmp = tempfile.mkdtemp(prefix='pyvc_selftest_')
     mismatches, n_samples, n_obl, skipped = [], 0, 0, 0
     out_of_subset = set()
+    inconclusive = 0
     try:
         for target, (names, sampler, objs) in sorted(SAMPLERS.items()):
             if targets is not None and target not in targets:
@@ -201,7 +202,9 @@ def run(targets=None, samples=12, seed=0, verbose=False):
                     continue
                 discharge(obs, timeout_ms=10000, procs=8)
                 n_obl += len(obs)
-                bad = [o for o in obs if o.status != 'proved']
+                # a solver that gives no answer within budget (loaded machine) is inconclusive, not a disagreement
+                inconclusive += sum(1 for o in obs if o.status in ('unknown', None))
+                bad = [o for o in obs if o.status in ('refuted', 'error')]
                 if bad:
                     mismatches.append({'target': target, 'args': key, 'cpython': repr(outcome),
                                        'engine': '%s %s %s' % (bad[0].oid, bad[0].status, str(bad[0].model)[:200])})
@@ -211,5 +214,5 @@ def run(targets=None, samples=12, seed=0, verbose=False):
         import shutil
         shutil.rmtree(tmp, ignore_errors=True)
     return {'samples': n_samples, 'obligations': n_obl, 'skipped': skipped, 'mismatches': mismatches,
-            'outside_engine_subset': sorted(out_of_subset),
+            'outside_engine_subset': sorted(out_of_subset), 'inconclusive_obligations': inconclusive,
             'functions': sorted(t for t in SAMPLERS if targets is None or t in targets)}
